@@ -190,6 +190,7 @@ class BudgetMeter(rf.Meter):
         super().__init__()
         self.call_limit = None
         self.jump_limit = None
+        self.on_fatal = None
 
     def _on_start(self, code, offset):
         self.calls += 1
@@ -204,6 +205,24 @@ class BudgetMeter(rf.Meter):
             self.call_limit = self.jump_limit = None
             self.tripped += 1
             raise rf.WorkBudgetExceeded(f'loop budget exceeded in {code.co_qualname}')
+
+    def _on_raise(self, code, offset, exc):
+        # RecursionError / MemoryError count even when bumble itself catches them later
+        if isinstance(exc, (RecursionError, MemoryError)) and self.on_fatal is not None:
+            self.on_fatal(exc, code)
+
+    def start(self):
+        import sys
+        super().start()
+        mon = sys.monitoring
+        mon.register_callback(self.TOOL, mon.events.RAISE, self._on_raise)
+        mon.set_events(self.TOOL, mon.events.PY_START | mon.events.JUMP | mon.events.RAISE)
+
+    def stop(self):
+        import sys
+        if self.active:
+            sys.monitoring.register_callback(self.TOOL, sys.monitoring.events.RAISE, None)
+        super().stop()
 
     def arm(self, n=1):
         self.call_limit = self.calls + CALL_BUDGET * n
@@ -296,8 +315,9 @@ class Attacker:
         return self.ident
 
     def new_cid(self):
+        # a small window, so that CIDs of closed channels are reused soon (a victim that leaks them shows)
         self.next_cid += 1
-        if self.next_cid > 0x7E:
+        if self.next_cid > 0x5C:
             self.next_cid = 0x0051
         return self.next_cid
 
@@ -1231,12 +1251,19 @@ class HfpHfDriver(RfcommDriver):
             elif line == b'AT+CIND?':
                 self.say(b'+CIND: 0,0,1')
             self.say(b'OK')
+            if line.startswith(b'AT+BCS=') and self.rng.random() < 0.6:
+                # a hostile AG may send more than one final result code for one command
+                self.say(self.rng.choice([b'ERROR', b'BLACKLISTED', b'+CME ERROR: 30', b'OK', b'NO CARRIER']))
 
     def say(self, text):
         self.rfs.send_data(b'\r\n' + text + b'\r\n', credits=30)
 
     def gen(self, n):
-        return rf.at_frames(self.rng, 'hf', n)
+        out = rf.at_frames(self.rng, 'hf', n)
+        if self.rng.random() < 0.2:
+            # a valid unsolicited code that makes the HF issue a command of its own (AT+BCS=)
+            out.insert(self.rng.randrange(len(out) + 1), ('provoke-command', '+BCS: 1', b'\r\n+BCS: 1\r\n'))
+        return out
 
     def enum_frames(self):
         r2 = random.Random(4321)
@@ -1267,15 +1294,15 @@ class HfpHfDriver(RfcommDriver):
             return [('livelock', 'no quiescence after terminating the open line')]
         self.n += 1
         # A: a command of the HF is answered OK by the (live) AG: execute_command must return
+        stale = hf.response_queue.qsize()      # diagnosis only: result codes left over from an earlier command
         try:
             await vloop.vwait(hf.execute_command('AT+CMEE=1'), 60)
         except vloop.Hang:
             bad.append(('command-never-completes', 'execute_command(AT+CMEE=1) pending after 60 virtual s'))
         except Exception as e:
-            stale = hf.response_queue.qsize()
             bad.append(('stale-final-result-poisons-next-command' if stale else 'ok-not-seen-after-garbage',
                         f'execute_command(AT+CMEE=1) raised {type(e).__name__}: {e} although the AG answered OK; '
-                        f'{stale} result code(s) left in the response queue; HF read_buffer={bytes(hf.read_buffer[:60])!r}'))
+                        f'{stale} result code(s) were left in the response queue before the command; HF read_buffer={bytes(hf.read_buffer[:60])!r}'))
         # B: an unsolicited +CIEV is still processed
         want = self.n & 1
         self.events.clear()
@@ -1422,6 +1449,11 @@ async def run_case(case, r: R):
     rng = random.Random(f"{case['seed']}/{case['chan']}/{case['mode']}")
     env = Env(case, r)
     env.meter = BudgetMeter()
+
+    def on_fatal(exc, code):
+        if not env.fatal and '/bumble/' in code.co_filename:
+            env.fatal.append(f'raised in {code.co_qualname}: {type(exc).__name__}: {str(exc)[:120]}')
+    env.meter.on_fatal = on_fatal
     try:
         drv = await make_driver(env, rng)
     except HarnessError as e:
